@@ -169,7 +169,8 @@ class Pol(Unit):
 
 
 def units(tier):
-    us = [Pol((1, 1, 2), "linear"), Pol((1, 1, 2), "circular"), Pol((2, 2, 2), "linear", c64=True), Pol((1, 2, 2), "circular", c64=True)]
+    us = [Pol((1, 1, 2), "linear"), Pol((1, 1, 2), "circular"), Pol((2, 2, 2), "linear", c64=True), Pol((1, 2, 2), "circular", c64=True),
+          Pol((1, 1, 2, 2), "linear"), Pol((1, 1, 2, 2), "circular"), Pol((1, 2, 2, 3), "circular", c64=True)]
     if tier != "quick":
-        us += [Pol((1, 1, 2, 2), "linear"), Pol((1, 1, 2, 2), "circular"), Pol((2, 2, 2), "circular"), Pol((3, 1, 2), "linear")]
+        us += [Pol((2, 2, 2), "circular"), Pol((3, 1, 2), "linear"), Pol((1, 2, 2, 3), "linear"), Pol((1, 1, 2, 2, 2), "circular")]
     return us
